@@ -412,7 +412,7 @@ def run_check(spec, tier, base_seed, jobs=None, wall_budget=None, max_runs=None)
             for v in total["violations"]:
                 if any(match_known(known, x) is None for x in v["violations"]):
                     unknown_found = True
-            if unknown_found or total["nondeterministic"] or len(total["harness_errors"]) > 20:
+            if (unknown_found and not os.environ.get("VERIF_KEEP_GOING")) or total["nondeterministic"] or len(total["harness_errors"]) > 20:
                 stopped_early = True
                 for p in pending:
                     p.cancel()
